@@ -224,9 +224,10 @@ CHECKER = "check_ind POW"
 
 
 def gen_rows(rng, n: int, regime: Optional[str] = None, step: int = 60, late: Optional[int] = None,
-             ts_mode: str = "regular") -> List[Dict]:
+             ts_mode: str = "regular", base_prices=None) -> List[Dict]:
     """Candles with a boolean 'flag' reading and a numeric 'src' reading that starts late."""
-    rows = gen.gen_prices(rng, n, regime or rng.choice(gen.REGIMES))
+    rows = (gen.gen_prices(rng, n, regime or rng.choice(gen.REGIMES), base_prices) if base_prices
+            else gen.gen_prices(rng, n, regime or rng.choice(gen.REGIMES)))
     late = rng.choice([0, 0, 1, 2, 5]) if late is None else late
     for r, t in zip(rows, gen.gen_timestamps(rng, n, ts_mode, step)):
         r["ts"] = t
